@@ -37,10 +37,13 @@ def worker(kp, job):
             if rng.random() < 0.6 or 'spine_ids' not in o:
                 o['spine_types'] = rng.sample(types_present + ['**kern'], rng.randint(1, len(types_present)))
         if 'cat' in which:
+            # half of the selections are unconstrained (they may drop durations, pitches, whole notes ...)
+            free = rng.random() < 0.5
             if rng.random() < 0.7:
-                o['include'] = rng.sample(CATS, rng.randint(1, 10)) + ['DURATION', 'PITCH']
+                o['include'] = rng.sample(CATS, rng.randint(1, 10)) + ([] if free else ['DURATION', 'PITCH'])
             if rng.random() < 0.6 or 'include' not in o:
-                o['exclude'] = rng.sample([c for c in CATS if c not in ('DURATION', 'PITCH', 'NOTE_REST', 'NOTE', 'CORE')], rng.randint(1, 4))
+                pool = CATS if free else [c for c in CATS if c not in ('DURATION', 'PITCH', 'NOTE_REST', 'NOTE', 'CORE')]
+                o['exclude'] = rng.sample(pool, rng.randint(1, 4))
         if 'enc' in which:
             o['encoding'] = rng.choice(optprops.ENCODINGS)
         records.append(optprops.evaluate(kp, g, doc, bad, text, o, '+'.join(sorted(which)), clause='composition'))
